@@ -804,10 +804,12 @@ def run(ctx, tier):
     results += guard(ctx)
     results += writable_provenance(ctx)
     results += error_atomic(ctx)
-    import c02
+    import c02, c16
     results += c02.alternate_rule(ctx, rule='C06.alternate')
     # a commit that fails before its header write must not have touched a page of the last committed state: pages freed by the transaction stay pending
     results += c02.cow_free_set(ctx, rule='C06.cow.free-set')
+    # a failed growth leaves the shared size / map as they were (the new value exists only behind the success of the allocation)
+    results += c16.grow(ctx, rule='C06.grow')
     import c16
     results += ob['O6'] + c16.strict_guard(ctx, rule='C06.strict-before-header')
     return dict(
@@ -818,6 +820,6 @@ def run(ctx, tier):
             'and nothing truncates; (shared-freelist) the shared free list changes only in the commit (behind the header write) and in DBInner::open; (guard) every public method of '
             'Tx/Bucket/Cursor/iterators from which a state-mutating primitive is reachable (constant-bool specialised) tests the writable bit first and returns ReadOnlyTx on the '
             'read-only edge; (writable-provenance) every carrier takes its writable bit from the transaction lock or its parent; (error-atomic) in the inlined, Result-kind-tracking trace of every public mutator no error return is '
-            'reachable after a state-mutating primitive, except a repeat of a test already made before the first mutation. NOT decided: byte-identity of later commits; that '
+            'reachable after a state-mutating primitive, except a repeat of a test already made before the first mutation. (shared-state) atomics / cells / further locks of DBInner that begin or commit read are not written before commit; (cow.free-set) freed pages go to the pending set only; (grow) a failed growth leaves shared size and map unchanged. NOT decided: byte-identity of later commits; that '
             'an error inside commit leaves the overlay usable (C11).'),
         assumptions=['the set of logical-state fields and the cache exclusions listed in rules/c06.py'])
